@@ -86,28 +86,29 @@ Definition divide (names : list name) : option (name * groups) :=
 Definition ep_rule (k : epkind) (n : name) : rule :=
   Rule (MIface (kind_dir k) n) (AGoto (CEp k n)).
 
-(* childChainName = chainName + infix + "-" + prefix[len(commonPrefix):]  (infix is "" here) *)
-Definition child_id (k : epkind) (cp p : name) : cid := CChild k (skipn (length cp) p).
+(* childChainName = chainName + infix + "-" + prefix[len(commonPrefix):].  The child id is what follows
+   "<chainName>-": ix ++ nextChar with ix = "" (no infix) or "wep-" / "hep-" (infix "-wep" / "-hep"). *)
+Definition child_id (ix : name) (k : epkind) (cp p : name) : cid := CChild k (ix ++ skipn (length cp) p).
 
 Definition is_multi (ns : list name) : bool := Nat.ltb 1 (length ns).
 
-Definition child_chains (k : epkind) (cp : name) (gs : groups) (E : list rule) : list (cid * list rule) :=
+Definition child_chains (ix : name) (k : epkind) (cp : name) (gs : groups) (E : list rule) : list (cid * list rule) :=
   flat_map (fun g => if is_multi (snd g)
-                     then [(child_id k cp (fst g), map (ep_rule k) (snd g) ++ E)]
+                     then [(child_id ix k cp (fst g), map (ep_rule k) (snd g) ++ E)]
                      else []) gs.
 
-Definition root_rule (wc : N) (k : epkind) (cp : name) (g : name * list name) : list rule :=
+Definition root_rule (wc : N) (ix : name) (k : epkind) (cp : name) (g : name * list name) : list rule :=
   if is_multi (snd g)
-  then [Rule (MIface (kind_dir k) (fst g ++ [wc])) (AGoto (child_id k cp (fst g)))]
+  then [Rule (MIface (kind_dir k) (fst g ++ [wc])) (AGoto (child_id ix k cp (fst g)))]
   else match snd g with
        | n :: _ => [ep_rule k n]
        | [] => []                  (* ifaceNames[0] on an empty slice: cannot happen, see Proofs *)
        end.
 
 (* child chains first, then the root chain, as interfaceNameDispatchChains appends them *)
-Definition build_tree (wc : N) (k : epkind) (cp : name) (gs : groups) (E : list rule)
+Definition build_tree (wc : N) (ix : name) (k : epkind) (cp : name) (gs : groups) (E : list rule)
   : list (cid * list rule) :=
-  child_chains k cp gs E ++ [(CRoot k, flat_map (root_rule wc k cp) gs ++ E)].
+  child_chains ix k cp gs E ++ [(CRoot k, flat_map (root_rule wc ix k cp) gs ++ E)].
 
 (* ---- buildSingleDispatchChainsVMAP ---- *)
 Definition build_vmap (k : epkind) (E : list rule) : list (cid * list rule) :=
@@ -118,7 +119,7 @@ Definition is_wl_kind (k : epkind) : bool :=
 
 (* ---- buildSingleDispatchChains ---- *)
 Definition build_single (c : cfg) (k : epkind) (cp : name) (gs : groups) (E : list rule) :=
-  if cf_nft c && is_wl_kind k then build_vmap k E else build_tree (wildcard c) k cp gs E.
+  if cf_nft c && is_wl_kind k then build_vmap k E else build_tree (wildcard c) [] k cp gs E.
 
 (* ---- interfaceNameDispatchChains ---- *)
 Definition iface_dispatch (c : cfg) (names : list name) (fromk tok : option epkind)
@@ -198,4 +199,32 @@ Definition host_dispatch (c : cfg) (names : list name) (dflt : name) (m : hmode)
   match host_dispatch_chains c names dflt m with
   | None => None
   | Some chains => Some {| rs_chains := chains; rs_maps := [] |}
+  end.
+
+(* ---- endpointMarkDispatchChains, the cali-set-endpoint-mark chain (kube-proxy IPVS mode) ----
+   Workload and host endpoint names are divided separately (child chains "<root>-wep-<c>" / "<root>-hep-<c>",
+   built with NO end rules), their root rules are concatenated, then one "Unknown endpoint" deny rule per
+   workload interface prefix, then the non-Calico endpoint mark.  (The cali-from-endpoint-mark chain, which
+   matches on marks allocated by the EndpointMarkMapper, is not modelled.) *)
+Definition ix_wep : name := [119;101;112;45].   (* "wep-" *)
+Definition ix_hep : name := [104;101;112;45].   (* "hep-" *)
+
+Definition sm_part (c : cfg) (ix : name) (names : list name) : option (list (cid * list rule) * list rule) :=
+  match names with
+  | [] => Some ([], [])
+  | _ => match divide names with
+         | None => None
+         | Some (cp, gs) => Some (child_chains ix KSetMark cp gs [], flat_map (root_rule (wildcard c) ix KSetMark cp) gs)
+         end
+  end.
+
+Definition sm_tail (c : cfg) (mark mask : N) : list rule :=
+  map (fun p => Rule (MIface DIn (p ++ [wildcard c])) (deny_action c)) (cf_wlpfx c)
+  ++ [Rule MAny (ASetMark mark mask)].
+
+Definition set_mark_dispatch (c : cfg) (wl hep : list name) (mark mask : N) : option ruleset :=
+  match sm_part c ix_wep wl, sm_part c ix_hep hep with
+  | Some (cw, rw), Some (ch, rh) =>
+      Some {| rs_chains := cw ++ ch ++ [(CRoot KSetMark, rw ++ rh ++ sm_tail c mark mask)]; rs_maps := [] |}
+  | _, _ => None
   end.
